@@ -25,7 +25,7 @@ ASSUMPTIONS = [
 NOT_COVERED = ['the translation between a zero shortest-cycle delay and the rule of the statement (time-shifted / weak inside the shared group), and that the cycle NAMED in the message is real, beyond the bound of the stand-in', 'scenarios with two paths whose accumulated delays are incomparable (K_mixed): known finding F6, the closure dies with AssertionError']
 LEVEL_TEXT = "Building blocks proved for all inputs: update_min (keeps the minimum, None iff no improvement), delay composition (associative, monotone) and order (transitive, exactly one of <, =, >) on mosaik/tiered_time.py outside K_mixed, connect_one's per-pair minimum. The closure ensure_no_dataflow_cycles itself (contract, any number of simulators and connections, any walking order): every recorded entry is the delay of a connection path (SOUND) and is not above the delay of ANY connection path (DIRECT + CLOSED loop invariants, two path-induction lemmas), and ScenarioError is raised IFF some simulator reaches itself with delay zero. The translation to the rule of the statement and the named cycle: BOUNDED stand-in -- every set of up to 3 (thorough: 4) connections over four group shapes, against the property's rule (unresolved cycle iff rejected, named cycle is real)."
 DESIGN_REF = "DESIGN.md section 8 (C06)"
-LEVEL_NOTE = 'Mixed: lemmas and function contracts are proofs; the closure and the reject-iff-zero-cycle decision are proved, the translation of 'zero delay' into the statement's rule is bounded (coverage.bounded). Known finding F6; fixed through this check: F13 (d15a998), F1 (fe85a87).'
+LEVEL_NOTE = 'Mixed: lemmas and function contracts are proofs; the closure and the reject-iff-zero-cycle decision are proved, the translation of a zero delay into the rule of the statement is bounded (coverage.bounded). Known finding F6; fixed through this check: F13 (d15a998), F1 (fe85a87).'
 TECHNIQUE = "contract-based deductive verification of the building blocks (update_min, delay composition and order, connect_one's minimum) and of the worklist closure ensure_no_dataflow_cycles (loop invariants + path-induction lemmas); bounded stand-in for the rule translation"
 CLAIMED = True
 NA_REASON = ""
